@@ -313,7 +313,7 @@ async def _run(case):
                     except ApiFault:
                         pass
             elif a["t"] == "close":
-                key = key_of[descr(a)]
+                key = _request(I, a).get_channel_name()
                 log.append(["close", key])
                 if key in registry:
                     await registry.close_and_remove(key)     # the consumer gives its channel up
